@@ -19,6 +19,13 @@ let rec length = function
 | [] -> O
 | _ :: l' -> S (length l')
 
+(** val app : 'a1 list -> 'a1 list -> 'a1 list **)
+
+let rec app l m =
+  match l with
+  | [] -> m
+  | a :: l1 -> a :: (app l1 m)
+
 (** val add : nat -> nat -> nat **)
 
 let rec add n m =
@@ -26,8 +33,26 @@ let rec add n m =
   | O -> m
   | S p -> S (add p m)
 
+(** val mul : nat -> nat -> nat **)
+
+let rec mul n m =
+  match n with
+  | O -> O
+  | S p -> add m (mul p m)
+
 module Nat =
  struct
+  (** val eqb : nat -> nat -> bool **)
+
+  let rec eqb n m =
+    match n with
+    | O -> (match m with
+            | O -> true
+            | S _ -> false)
+    | S n' -> (match m with
+               | O -> false
+               | S m' -> eqb n' m')
+
   (** val leb : nat -> nat -> bool **)
 
   let rec leb n m =
@@ -41,6 +66,22 @@ module Nat =
 
   let ltb n m =
     leb (S n) m
+
+  (** val divmod : nat -> nat -> nat -> nat -> nat * nat **)
+
+  let rec divmod x y q u =
+    match x with
+    | O -> (q, u)
+    | S x' ->
+      (match u with
+       | O -> divmod x' y (S q) y
+       | S u' -> divmod x' y q u')
+
+  (** val div : nat -> nat -> nat **)
+
+  let div x y = match y with
+  | O -> y
+  | S y' -> fst (divmod x y' O y')
  end
 
 (** val map : ('a1 -> 'a2) -> 'a1 list -> 'a2 list **)
@@ -153,3 +194,118 @@ let run_alloc cap ops =
   map (fun ar ->
     (enc_ares (snd ar)) :: ((fst ar).a_size :: (fst ar).a_store))
     (arun (ainit cap) ops)
+
+(** val secondary_capacity : nat -> nat -> nat -> nat option **)
+
+let secondary_capacity slots p q =
+  if Nat.eqb p O then None else Some (Nat.div (mul slots p) q)
+
+type skind =
+| SInactive
+| SActive
+| SErrored
+
+type sreq = { r_kind : skind; r_count : nat; r_tag : nat }
+
+type span = (nat * nat) option
+
+(** val pre_step_thread : nat -> skind -> astate -> span -> astate * span **)
+
+let pre_step_thread tid k a sp =
+  let a' = if Nat.eqb tid O then { a_size = O; a_store = a.a_store } else a in
+  (match k with
+   | SInactive -> (a', sp)
+   | _ -> (a', None))
+
+(** val pre_step_all :
+    nat -> astate -> skind list -> span list -> astate * span list **)
+
+let rec pre_step_all tid a ks sps =
+  match ks with
+  | [] -> (a, [])
+  | k :: kr ->
+    (match sps with
+     | [] -> (a, [])
+     | sp :: sr ->
+       let (a1, sp1) = pre_step_thread tid k a sp in
+       let (a2, sr2) = pre_step_all (S tid) a1 kr sr in (a2, (sp1 :: sr2)))
+
+(** val interact_slot : astate -> span -> sreq -> (astate * span) * bool **)
+
+let interact_slot a sp r =
+  match r.r_kind with
+  | SActive ->
+    (match r.r_count with
+     | O -> ((a, sp), false)
+     | S k ->
+       let (a', a0) = astep_alloc a (S k) r.r_tag in
+       (match a0 with
+        | Allocated start -> ((a', (Some (start, (S k)))), false)
+        | _ -> ((a', sp), true)))
+  | _ -> ((a, sp), false)
+
+(** val interact_all :
+    astate -> span list -> sreq list -> (astate * span list) * bool list **)
+
+let rec interact_all a sps rs =
+  match sps with
+  | [] -> ((a, []), [])
+  | sp :: sr ->
+    (match rs with
+     | [] -> ((a, []), [])
+     | r :: rr ->
+       let (p, f1) = interact_slot a sp r in
+       let (a1, sp1) = p in
+       let (p0, fr2) = interact_all a1 sr rr in
+       let (a2, sr2) = p0 in ((a2, (sp1 :: sr2)), (f1 :: fr2)))
+
+(** val step_stack :
+    astate -> span list -> sreq list -> (astate * span list) * bool list **)
+
+let step_stack a sps rs =
+  let (a1, sps1) = pre_step_all O a (map (fun s -> s.r_kind) rs) sps in
+  interact_all a1 sps1 rs
+
+(** val steps_stack :
+    astate -> span list -> sreq list list -> ((astate * span list) * bool
+    list) list **)
+
+let rec steps_stack a sps = function
+| [] -> []
+| rs :: more ->
+  let (p, fl) = step_stack a sps rs in
+  let (a', sps') = p in ((a', sps'), fl) :: (steps_stack a' sps' more)
+
+(** val enc_span : span -> nat list **)
+
+let enc_span = function
+| Some p -> let (o, c) = p in (S o) :: (c :: [])
+| None -> O :: (O :: [])
+
+(** val b2n : bool -> nat **)
+
+let b2n = function
+| true -> S O
+| false -> O
+
+(** val enc_slots : span list -> bool list -> nat list **)
+
+let rec enc_slots sps fl =
+  match sps with
+  | [] -> []
+  | sp :: sr ->
+    (match fl with
+     | [] -> []
+     | f :: fr -> (b2n f) :: (app (enc_span sp) (enc_slots sr fr)))
+
+(** val run_steps : nat -> nat -> nat -> sreq list list -> nat list list **)
+
+let run_steps slots p q steps =
+  match secondary_capacity slots p q with
+  | Some cap ->
+    map (fun r ->
+      let (y, fl) = r in
+      let (a, sps) = y in
+      a.a_size :: ((a_cap a) :: (app (enc_slots sps fl) a.a_store)))
+      (steps_stack (ainit cap) (repeat None slots) steps)
+  | None -> (O :: []) :: []
